@@ -1,5 +1,5 @@
 SPECIFICATION FairSpec
-CONSTANTS Thorough = FALSE MaxN = 3 StopNeedsSolved = TRUE MaxIter = 120
+CONSTANTS Thorough = TRUE MaxN = 2 StopNeedsSolved = TRUE MaxIter = 120
 INVARIANTS Inv
 PROPERTIES Descent Terminates
 CHECK_DEADLOCK FALSE
